@@ -91,6 +91,46 @@ def _set_typed_fields() -> set:
     return _SET_FIELDS[id(repo)]
 
 
+
+
+def _class_enumerated_table(fi: FuncInfo, table: ast.AST) -> bool:
+    """`self.<table>` that the class fills as `<table>[elem] = i` inside `for i, elem in enumerate(...)`: an injective position map."""
+    if not (isinstance(table, ast.Attribute) and isinstance(table.value, ast.Name) and table.value.id == "self" and fi.cls is not None):
+        return False
+    for m in fi.cls.methods.values():
+        for lp in [x for x in ast.walk(m.node) if isinstance(x, ast.For)]:
+            if isinstance(lp.iter, ast.Call) and src(lp.iter.func) == "enumerate" and isinstance(lp.target, ast.Tuple) and isinstance(lp.target.elts[0], ast.Name):
+                idx = lp.target.elts[0].id
+                for a in ast.walk(lp):
+                    if isinstance(a, ast.Assign) and isinstance(a.targets[0], ast.Subscript) and src(a.targets[0].value) == src(table) and isinstance(a.value, ast.Name) and a.value.id == idx:
+                        return True
+    return False
+
+
+def _moved_sort_finding(ctx: Ctx, fi: FuncInfo, fn: str, a0: ast.AST, kt: str, k: str) -> str:
+    """A recorded tie-prone sort that a refactoring moved into another function of the same module (same call, same kind of
+    source collection, same key text) is still the recorded finding, provided it is gone from the function it was recorded in."""
+    from .. import core
+
+    known = [f for f in core.load_known_findings() if f.get("rule") == "C11.1" and f.get("status") == "known" and "::by::" in f.get("key", "")]
+    if any(f["key"] == k for f in known):
+        return k
+    tail = src(a0).split(".")[-1][:40]
+    for f in known:
+        q0, fn0, rest = f["key"].split("::", 2)
+        src0, kt0 = rest.split("::by::", 1)
+        if fn0 != fn or kt0 != kt[:50] or src0.split(".")[-1][:40] != tail:
+            continue
+        f0 = ctx.repo.funcs.get(q0)
+        same_module = (f0.mod is fi.mod) if f0 is not None else q0.startswith(fi.mod.name + ".")
+        if not same_module:
+            continue
+        still_there = f0 is not None and any(isinstance(c, ast.Call) and isinstance(c.func, ast.Name) and c.func.id == fn0 and c.args and src(c.args[0])[:60] == src0 for c in ast.walk(f0.node))
+        if not still_there:
+            return f["key"]
+    return k
+
+
 def _is_unordered(fi: FuncInfo, e: ast.expr) -> bool:
     t = src(e)
     if UNORDERED.search(t):
@@ -347,6 +387,10 @@ def _key_is_total(fi: FuncInfo, call: ast.Call) -> Tuple[bool, str]:
             v = single_assign_value(fi.node, body.value.id)
             if v is not None and isinstance(v, ast.DictComp) and "enumerate(" in src(v):
                 return True, "key is the element's position in an enumerated list (injective)"
+            if v is not None and _class_enumerated_table(fi, v):
+                return True, "key is the element's position in an enumerated list recorded by the class (injective)"
+        if isinstance(body, ast.Subscript) and _class_enumerated_table(fi, body.value):
+            return True, "key is the element's position in an enumerated list recorded by the class (injective)"
         return False, f"key `{t}` can tie for distinct elements"
     if isinstance(key, ast.Name):
         # a local `def key(x): return table[x]` / `key = lambda ...` / `table.__getitem__`
@@ -435,7 +479,7 @@ def c11_1(ctx: Ctx):
                             # keys derived from the element: last writer wins only on key collisions
                             ctx.ok(fi, n, f"dict comprehension over `{src(gen.iter)[:50]}`", "keyed by the element", key=k)
                         continue
-                    if consumer in ("any", "all", "sum", "set", "frozenset", "len") or (consumer or "").endswith((".update", ".add", ".difference_update")):
+                    if consumer in ("any", "all", "sum", "set", "frozenset", "len") or (consumer or "").endswith((".update", ".add", ".difference_update", ".union", ".intersection", ".difference", ".isdisjoint", ".issubset", ".issuperset", ".intersection_update", ".symmetric_difference")):
                         ctx.ok(fi, n, f"{type(n).__name__} over `{src(gen.iter)[:50]}` consumed by {consumer}", key=k)
                     elif consumer == "next":
                         au = ASSUMED_UNIQUE.get((q, src(gen.iter)))
@@ -483,6 +527,8 @@ def c11_1(ctx: Ctx):
                     kt = src(kw.body if isinstance(kw, ast.Lambda) else kw) if kw is not None else "<natural>"
                     # the sort key is part of the finding's identity: a different (non-total) key ties on different inputs
                     k = f"{q}::{fn}::{src(a0)[:60]}::by::{kt[:50]}"
+                    if not ok:
+                        k = _moved_sort_finding(ctx, fi, fn, a0, kt, k)
                     ctx.check(ok, fi, n, f"{fn}(`{src(a0)[:50]}`, key=...)",
                               f"{why}: ties are broken by set iteration order, so blocks that share the key (same address/offset: overlapping or zero-sized blocks) "
                               "come out in a different order from run to run", reason_ok=why, key=k)
